@@ -66,7 +66,7 @@ def cls(kind, feat):
     return "%s|%s|b%s|t%s|wide=%s|hm=%s" % (kind, feat["form"], feat["base"], feat["target"], feat["wide"], feat["hex_money"])
 
 
-def renderings(line, salt, every):
+def renderings(line, salt, every, dec=","):
     n = bits_int(line["bits"])
     f = line["form"]
     out = []
@@ -80,7 +80,7 @@ def renderings(line, salt, every):
     if f == "radix_conv":
         srcs = lit_texts(n, line["base"], salt, every)
         if line["base"] == 10 and line["q"]:
-            srcs = [("dec.q%d" % line["q"], digits_in(n, 10) + "," + {1: "25", 3: "75"}[line["q"]])]
+            srcs = [("dec.q%d" % line["q"], digits_in(n, 10) + dec + {1: "25", 3: "75"}[line["q"]])]
         words = TARGET_WORDS[line["target"]]
         for i, (v, t) in enumerate(srcs):
             for j, kw in enumerate(("to", "as", "into", "")):
